@@ -286,7 +286,70 @@ CARRIER = [  # (toml line, flag argv, editorconfig line or None, source, expecte
      "if x then\n\treturn\nend\nlocal f = function()\n\treturn 1\nend\n", "if x then return end\nlocal f = function()\n\treturn 1\nend\n"),
     ('[sort_requires]\nenabled = true', ["--sort-requires"], "sort_requires = true", 'local b = require("b")\nlocal a = require("a")\n', 'local a = require("a")\nlocal b = require("b")\n'),
 ]
-MALFORMED = ['colum_width = 80', 'column_width = "wide"', 'quote_style = "Sometimes"', '[unknown_table]\nx = 1', '[sort_requires]\nenable = true']
+MALFORMED = ['colum_width = 80', 'column_width = "wide"', 'quote_style = "Sometimes"', '[unknown_table]\nx = 1', '[sort_requires]\nenable = true',
+             '[sort_requires]\nenabled = true\nenabeld = true', 'sort_requires = true', '[sort_requires.extra]\nx = 1', 'syntax = "Lua99"', 'indent_width = -1',
+             'column_width = 80\ncolumn_width = 90']
+
+
+def strictness(ses, rep):
+    """serde's derive-generated key / variant visitors (lib MIR): a key that is not a field of the struct, or a value that is not a
+    variant of the enum, ends in Err(unknown_field / unknown_variant) - never in an `ignore` field; the accepted keys are exactly the
+    struct's fields; Config and every struct nested in it have such a visitor."""
+    flagged = []
+    funcs = ses.mir("lib", "editorconfig")
+    T = ses.enums("editorconfig")
+    vis = [g for n, l in funcs.items() for g in l if re.search(r"::visit_str$", g.name) and g.params and "__FieldVisitor" in g.params[0][1]]
+    seen_types = {}
+    for g in vis:
+        m = re.search(r"for ([A-Za-z0-9_]+)>::deserialize::__FieldVisitor", g.params[0][1])
+        ty = m.group(1) if m else g.params[0][1]
+        if ty == "Range":
+            continue            # the formatting range is not part of the configuration file (library / JS API only)
+        ex = ses.executor("lib", "editorconfig", inline=lambda n_, fn: False)
+        value = ex.fresh_lazy("str", "key")
+        eqs = {}
+
+        def h(ex_, st, callee, args, dty, eqs=eqs, value=value):
+            if canon(callee).endswith("PartialEq>::eq") and len(args) == 2:
+                a, b = deref_val(ex_, st, args[0]), deref_val(ex_, st, args[1])
+                c = b if isinstance(b, Str) else a if isinstance(a, Str) else None
+                if c is not None:
+                    if c.s not in eqs:
+                        eqs[c.s] = z3.Bool(f"key=={c.s}")
+                    return Sym(eqs[c.s], "bool")
+            return NotImplemented
+        ex.hooks = [h]
+        outs = ex.run(g, [ex.fresh_lazy(g.params[0][1], "visitor"), RefV(value)])
+        rep.fn(g)
+        seen_types[ty] = set()
+        for pi, o in enumerate(outs):
+            if o.kind != "return":
+                continue
+            v = deref_val(ex, o.state, o.value)
+            is_ok = isinstance(v, Agg) and v.variant == "Ok"
+            none_matches = [z3.Not(b) for b in eqs.values()]
+            distinct = [z3.Not(z3.And(a, b)) for i, a in enumerate(eqs.values()) for b in list(eqs.values())[i + 1:]]
+            oid = f"strict/{ty}/path{pi}/unknown-key-or-variant-is-an-error"
+            if ses.reachable(list(o.pc) + none_matches + distinct):
+                r, m_ = ses.obligation(oid, list(o.pc) + none_matches + distinct, z3.BoolVal(is_ok), "a text that equals none of the accepted names is rejected")
+                if r == "sat":
+                    flagged.append((oid, f"{ty}: a key / value that is not one of {sorted(eqs)} is accepted (ignored) instead of rejected", "strict", {"type": ty}))
+        seen_types[ty] = set(eqs)
+    rep.bounds["serde_name_visitors"] = len(vis)
+    # the accepted keys of the configuration structs are their fields
+    for ty in ("Config", "SortRequiresConfig"):
+        want = {n for n, _ in T.structs.get(ty, [])}
+        got = seen_types.get(ty)
+        oid = f"strict/{ty}/accepted-keys-are-the-fields"
+        if got is None:
+            rep.add(oid, "sat", f"no derive-generated key visitor for {ty}")
+            flagged.append((oid, f"{ty} is no longer decoded by a field-by-field visitor that rejects unknown keys", "strict", {"type": ty}))
+        elif got != want:
+            rep.add(oid, "sat", f"accepted {sorted(got)}, fields {sorted(want)}")
+            flagged.append((oid, f"{ty}: accepted keys {sorted(got - want)} are not fields / fields {sorted(want - got)} are not accepted", "strict", {"type": ty}))
+        else:
+            rep.add(oid, "unsat", f"{len(want)} keys")
+    return flagged
 
 
 def carriers():
@@ -317,6 +380,7 @@ def run(ses, rep):
     for fs in ("default", "full"):
         flagged += overrides(ses, rep, fs)
     flagged += editorconfig(ses, rep)
+    flagged += strictness(ses, rep)
     # the mapping only matters if every configuration route applies it: override dominance over src/cli/config.rs
     from .. import cfgorigin
     routes = cfgorigin.analyse(ses, rep)
